@@ -38,6 +38,6 @@ func checkC15(tier string, seed int64) int {
 		return "package loading obligation " + strings.TrimPrefix(id, "C15/") + " fails"
 	})
 	agg.Into(c, "")
-	c.Assumption("every import relation over 2 and 3 (thorough: 4) packages plus main (one boolean per ordered pair and per main import) × 7 file layouts (plain two-file, vendor/, shortened path, vendor + long path, single file, with _test.go / //go:build ignore / !goat / goat files, conflicting package clause); all branching is on these input bits, so the exploration enumerates the graphs; the real Load runs on an in-memory file tree (tokenize and build-constraint evaluation delegated natively, io/fs modelled over the map)")
+	c.Assumption("every import relation over 2 and 3 (thorough: 4) packages plus main (one boolean per ordered pair and per main import) × 9 file layouts (plain two-file, vendor/, shortened path, vendor + long path, single file, with _test.go / //go:build ignore / !goat / goat files, conflicting package clause, full path plus a decoy directory at a shorter suffix, vendor/ plus a decoy at the plain path) × 4 import spellings; all branching is on these input bits, so the exploration enumerates the graphs; the real Load runs on an in-memory file tree (tokenize and build-constraint evaluation delegated natively, io/fs modelled over the map)")
 	return c.Finish(false)
 }
